@@ -223,6 +223,18 @@ def check(ctx):
     hs = [c for c in calls(sp, "hash_object_dispatch")]
     ok = len(hs) >= 2 and all(unparse(c.args[0]).startswith("df[on]") for c in hs[:2]) and bool(find("o = df[on]", sp))
     ctx.ob("SIB.split-partition.key-order", sp, "_split_partition hashes df[on] (columns in the order the join lists them), like the shuffle of the broadcast side", ok, "" if ok else "columns are taken in frame order: for on=['b','a'] the two sides hash different column orders and matching rows land in different splits")
+    # ---------------- single-partition side: the other side's divisions survive only for joins that cannot add rows outside them
+    bmd = ctx.model.module("dask/dataframe/dask_expr/_merge.py").func("BlockwiseMerge._divisions")
+    rets = {unparse(r.value): [unparse(e) for e, pol in cfg_of(bmd).facts(r) if pol] for r in returns(bmd)}
+    okr = "self.right.divisions" in rets and "self.how in ('right', 'inner')" in rets["self.right.divisions"] and "self.left.npartitions == 1" in rets["self.right.divisions"]
+    okl = "self.left.divisions" in rets and "self.how in ('inner', 'left', 'leftsemi')" in rets["self.left.divisions"] and "self.right.npartitions == 1" in rets["self.left.divisions"]
+    ctx.ob("SIB.mirror.blockwise-divisions", bmd, "right.divisions only for how in (right, inner) with a 1-partition left; left.divisions only for how in (inner, left, leftsemi) with a 1-partition right", okr and okl, "" if okr and okl else "an outer (or the opposite one-sided) join can produce index values outside the kept side's divisions: the declared divisions are too narrow and a following aligned operation loses rows")
+    # ---------------- merge_asof: heads and tails of the right frame are taken per `by` group alike
+    mai = ctx.model.module("dask/dataframe/dask_expr/_merge_asof.py").func("MergeAsofIndexed._layer")
+    for fn_ in ("compute_heads", "compute_tails"):
+        cs = [c for c in calls(mai, fn_)]
+        ok = len(cs) == 1 and kwarg(cs[0], "by") is not None and eqv(kwarg(cs[0], "by"), "self.right_by") and eqv(cs[0].args[0], "self.right")
+        ctx.ob("SIB.mirror.asof-heads-tails", mai, f"{fn_}(self.right, <name>, by=self.right_by)", ok, "" if ok else "without by= the first/last row of the neighbouring partition is taken regardless of its group: forward/nearest (resp. backward) matches across a partition boundary pick the wrong group")
 
 
 VARIANTS = [
